@@ -3,6 +3,7 @@ package main
 // Per-path execution state, the fork primitive, assertions, tape.
 
 import (
+	"math/rand"
 	"fmt"
 	"os"
 	"go/types"
@@ -80,6 +81,8 @@ type Exec struct {
 	covers   map[string]bool
 	lazyN    int
 	newTasks [][]int
+	estProd  float64 // estimation mode: product of the feasible branching factors along the probe
+	rng      *rand.Rand
 	observed []string
 	unknowns int
 	mapType  types.Type
@@ -295,13 +298,20 @@ func (x *Exec) choose(kind string, conds []*Term, exhaustive bool) int {
 	if len(feas) == 0 {
 		panic(abortSig{"infeasible", "no feasible alternative in " + kind})
 	}
-	for _, j := range feas[1:] {
-		t := make([]int, len(x.trail)+1)
-		copy(t, x.trail)
-		t[len(x.trail)] = j
-		x.newTasks = append(x.newTasks, t)
-	}
 	alt := feas[0]
+	if x.rng != nil {
+		// estimation mode (Knuth 1975): one random descent; the product of the numbers of
+		// feasible alternatives is an unbiased estimate of the number of paths
+		x.estProd *= float64(len(feas))
+		alt = feas[x.rng.Intn(len(feas))]
+	} else {
+		for _, j := range feas[1:] {
+			t := make([]int, len(x.trail)+1)
+			copy(t, x.trail)
+			t[len(x.trail)] = j
+			x.newTasks = append(x.newTasks, t)
+		}
+	}
 	x.trail = append(x.trail, alt)
 	if c := conds[alt]; c != nil {
 		x.addPC(c)
